@@ -78,11 +78,13 @@ type gsim struct {
 	ref         *cu.RefTree // the whole block tree (source)
 	blocks      []*cu.RefBlock
 	genesis     *types.Header
-	cut         map[[2]int]bool // partitioned links
-	targeted    bool            // targeted split-vote attack run
-	crashes     bool            // crash-restarts of honest voters enabled in this run
-	offEstimate bool            // some honest voter prevoted off the chain of its last round's estimate
-	real        bool            // the real finalisation.go goroutines and the vote tracker drive the rounds (real.go)
+	cut         map[[2]int]bool        // partitioned links
+	targeted    bool                   // targeted split-vote attack run
+	crashes     bool                   // crash-restarts of honest voters enabled in this run
+	offEstimate bool                   // some honest voter prevoted off the chain of its last round's estimate
+	authChanges bool                   // some blocks announce a scheduled authority change (same voters), which caps precommits
+	chg         map[common.Hash]uint32 // announcing block -> delay
+	real        bool                   // the real finalisation.go goroutines and the vote tracker drive the rounds (real.go)
 	// honest precommits observed on the wire, for Byzantine replay
 	observed []observedPrecommit
 	rs       *realState
@@ -278,7 +280,39 @@ func (s *gsim) produce(parent *cu.RefBlock, salt int) *cu.RefBlock {
 	rb := &cu.RefBlock{Hash: h.Hash(), Parent: parent.Hash, Number: parent.Number + 1, Header: h}
 	s.ref.Add(rb)
 	s.blocks = append(s.blocks, rb)
+	if s.authChanges && s.pendingChangeOn(parent) == nil && s.k.Bool(1, 4, "announce-authority-change") {
+		s.chg[rb.Hash] = uint32(s.k.Choose(3, "change-delay"))
+		s.k.Event("announce-change", "%s #%d delay=%d", cu.Short(rb.Hash), rb.Number, s.chg[rb.Hash])
+	}
 	return rb
+}
+
+// pendingChangeOn: the block on b's chain (b included) that announced an authority change, if any.
+func (s *gsim) pendingChangeOn(b *cu.RefBlock) *cu.RefBlock {
+	for x := b; x != nil; x = s.ref.Blocks[x.Parent] {
+		if _, ok := s.chg[x.Hash]; ok {
+			return x
+		}
+		if x.Number == 0 {
+			break
+		}
+	}
+	return nil
+}
+
+// capped: GRANDPA votes do not go past the block at which a pending authority change announced on
+// the same chain takes effect: the vote is that ancestor instead.
+func (s *gsim) capped(b *cu.RefBlock) *cu.RefBlock {
+	a := s.pendingChangeOn(b)
+	if a == nil {
+		return b
+	}
+	eff := a.Number + uint(s.chg[a.Hash])
+	x := b
+	for x.Number > eff {
+		x = s.ref.Blocks[x.Parent]
+	}
+	return x
 }
 
 // importChain imports b and its missing ancestors into node n.
@@ -298,6 +332,23 @@ func (n *gnode) importChain(b *cu.RefBlock) {
 			return
 		}
 		n.has[x.Hash] = true
+		if d, ok := n.s.chg[x.Hash]; ok {
+			// what dot/digest does at import for a header with a scheduled-change digest (same voters: the
+			// change itself is never applied in this world, only its cap on the votes is looked at)
+			dg := types.NewGrandpaConsensusDigest()
+			var raw []types.GrandpaAuthoritiesRaw
+			for _, v := range n.s.voters {
+				raw = append(raw, types.GrandpaAuthoritiesRaw{Key: v.Key.AsBytes(), ID: v.ID})
+			}
+			if err := dg.SetValue(types.GrandpaScheduledChange{Auths: raw, Delay: d}); err != nil {
+				panic(err)
+			}
+			if err := n.gs.HandleGRANDPADigest(x.Header, dg); err != nil {
+				n.s.k.Event("change-not-tracked", "n%d %s: %v", n.id, cu.Short(x.Hash), err)
+			} else {
+				n.s.k.Probe("authority-change-tracked")
+			}
+		}
 	}
 }
 
